@@ -24,12 +24,23 @@ import (
 	"verif/engine/vlib"
 )
 
-const (
-	verifDir = "/verif"
-	repoDir  = "/repo"
+const verifDir = "/verif"
+
+// repoDir, workDir and evidenceDir can be redirected through the environment so that a seeded
+// change can be checked in a scratch worktree without touching /repo, /verif/.work or the
+// committed evidence (tools/mutcheck.sh).  Registered checks never set these.
+var (
+	repoDir     = envOr("VERIF_REPO", "/repo")
+	workDir     = envOr("VERIF_WORK", filepath.Join(verifDir, ".work"))
+	evidenceDir = envOr("VERIF_EVIDENCE_DIR", filepath.Join(verifDir, "evidence"))
 )
 
-var workDir = filepath.Join(verifDir, ".work")
+func envOr(k, d string) string {
+	if v := os.Getenv(k); v != "" {
+		return v
+	}
+	return d
+}
 
 // Stage is one enumeration of the plan of a property.
 type Stage struct {
@@ -279,7 +290,7 @@ func main() {
 func execute(plan *Plan, tier string, seed int64, replayFile, only string) int {
 	start := time.Now()
 	defer os.RemoveAll(scratchRoot())
-	evPath := filepath.Join(verifDir, "evidence", plan.ID+".json")
+	evPath := filepath.Join(evidenceDir, plan.ID+".json")
 	_ = os.MkdirAll(filepath.Dir(evPath), 0o755)
 	// build
 	need := map[string]bool{}
@@ -409,7 +420,7 @@ func execute(plan *Plan, tier string, seed int64, replayFile, only string) int {
 			continue
 		}
 		seenClass[v.Class] = true
-		p := filepath.Join(verifDir, "evidence", "replay", fmt.Sprintf("%s.%d.json", plan.ID, len(confirmed)))
+		p := filepath.Join(evidenceDir, "replay", fmt.Sprintf("%s.%d.json", plan.ID, len(confirmed)))
 		_ = os.MkdirAll(filepath.Dir(p), 0o755)
 		b, _ := json.MarshalIndent(v, "", " ")
 		_ = os.WriteFile(p, b, 0o644)
